@@ -4,6 +4,8 @@ import (
 	"fmt"
 	"math/rand"
 	"os"
+
+	"verif/cfg"
 	"path/filepath"
 	"strings"
 
@@ -23,6 +25,7 @@ func checkC16(c *Ctx) error {
 	type cse struct {
 		yaml  string
 		kinds []string
+		conf  *cfg.Config
 	}
 	cases := make([]cse, n)
 	for i := range cases {
@@ -41,7 +44,7 @@ func checkC16(c *Ctx) error {
 			gen.Inject(r, conf, kind, j)
 			kinds = append(kinds, kind)
 		}
-		cases[i] = cse{conf.YAML(), kinds}
+		cases[i] = cse{conf.YAML(), kinds, conf}
 	}
 	Par(n, 16, func(i int) {
 		cs := cases[i]
@@ -71,6 +74,19 @@ func checkC16(c *Ctx) error {
 			for _, b := range runs[k].Contract() {
 				c.Violate("cli-contract:"+sigWords(b), fmt.Sprintf("flags %v: %s\n%s", combos[k], b, runs[k].Res.Stdout), files)
 			}
+		}
+		// absolute oracles (a violation that is never reported would satisfy the relational law): every run that reaches
+		// output validation must report exactly the scope conflicts, cycles and dangling references of the reference model
+		for k := range combos {
+			if runs[k].Rep.Section("Validate output") == nil {
+				continue
+			}
+			judgeScopeVerdictOpt(c, cs.conf, &runs[k], files, false)
+			judgeCyclesOpt(c, cs.conf, &runs[k], files, false)
+			if k == 0 {
+				judgeDangling(c, cs.conf, &runs[k], files, true)
+			}
+			c.Add("runs_checked_against_reference_sets", 1)
 		}
 		base := runs[0].Rep
 		params := base.ErrorsOf("Missing parameters")
